@@ -126,6 +126,13 @@ def install(w):
             return Tup(v.items)
         raise Unsupported("tuple() of symbolic")
 
+    @b("set")
+    def _set(ex, args, kw, e, env):
+        if args:
+            raise Unsupported("set(iterable)")
+        # an opaque set: only membership can be asked, answered by an uninterpreted predicate
+        return Obj("pyset", {"id": Z(ex.fresh("set", ex.S.Py))}, fresh="shallow")
+
     @b("reversed")
     def _reversed(ex, args, kw, e, env):
         v = args[0]
@@ -750,6 +757,22 @@ def comprehension_hook(ex, e, g, seq, env):
             and isinstance(elt.args[0], ast.Name) and elt.args[0].id == tgt and not elt.keywords \
             and isinstance(elt.func, ast.Attribute) and isinstance(elt.func.value, ast.Name) \
             and elt.func.value.id == "self" and elt.func.attr == "visit":
+        slf = env.get("self")
+        cc = ex.w.classes.get(slf.cls) if isinstance(slf, Obj) else None
+        if cc is not None:
+            return ex.w.visit_list(ex, slf, cc, seq, getattr(e, "lineno", None))
+    if not g.ifs and isinstance(elt, ast.IfExp) and isinstance(elt.orelse, ast.Constant) \
+            and elt.orelse.value is None and isinstance(elt.test, ast.Compare) \
+            and isinstance(elt.test.left, ast.Name) and elt.test.left.id == tgt \
+            and len(elt.test.ops) == 1 and isinstance(elt.test.ops[0], ast.IsNot) \
+            and isinstance(elt.test.comparators[0], ast.Constant) \
+            and elt.test.comparators[0].value is None \
+            and isinstance(elt.body, ast.Call) and isinstance(elt.body.func, ast.Attribute) \
+            and isinstance(elt.body.func.value, ast.Name) and elt.body.func.value.id == "self" \
+            and elt.body.func.attr == "visit" and len(elt.body.args) == 1 \
+            and isinstance(elt.body.args[0], ast.Name) and elt.body.args[0].id == tgt:
+        # [self.visit(x) if x is not None else None for x in l]: on a list of nodes (no None in
+        # it, which the visitor's list precondition demands) this is the plain visit of the list
         slf = env.get("self")
         cc = ex.w.classes.get(slf.cls) if isinstance(slf, Obj) else None
         if cc is not None:
